@@ -2,7 +2,11 @@
    C18: a pooled Merkle-map cache never serves data from a superseded generation; the pool never
    grows beyond its size; a blocked acquirer is woken by a push.  All statements quantify over
    every pool size, every initial content, every number of threads and every schedule
-   (interleaving of critical sections, time-outs and spurious wake-ups included). *)
+   (interleaving of critical sections, time-outs and spurious wake-ups included; the points where
+   the pool calls back into the pooled value with no lock held are interleaving points too).
+   [ev_ok]: the schedule may use every entry point (clear, clear_and_increment_discriminant alone,
+   give_back_resource of a resource tagged with the generation it was built for, any generation)
+   except set_discriminant. *)
 From Coq Require Import Lia.
 From MV Require Import Base.Prelude C18.Model C18.Proofs.
 Open Scope N_scope.
@@ -11,21 +15,21 @@ Open Scope N_scope.
    ever handed out (i) was built for the discriminant current at the hand-out, (ii) is tagged
    with it, (iii) has been reset; and every queued resource is of the current generation. *)
 Theorem C18_safe : forall sz q0 n sched,
-  fresh0 q0 ->
+  fresh0 q0 -> Forall ev_ok sched ->
   forall s' r tag, In (s', OHandout r tag) (trace (init sz q0 n) sched) ->
     built_for r = disc (pl s') /\ tag = disc (pl s') /\ dirty r = false.
 Proof.
-  intros sz q0 n sched H s' r tag Hin.
-  destruct (J_trace _ sched (J_init sz q0 n H) _ Hin) as [_ G]. exact G.
+  intros sz q0 n sched H Hok s' r tag Hin.
+  destruct (J_trace _ sched Hok (J_init sz q0 n H) _ Hin) as [_ G]. exact G.
 Qed.
 
 Theorem C18_queue_current : forall sz q0 n sched,
-  fresh0 q0 ->
+  fresh0 q0 -> Forall ev_ok sched ->
   forall r, In r (queue (pl (exec (init sz q0 n) sched))) ->
     built_for r = disc (pl (exec (init sz q0 n) sched)) /\ dirty r = false.
 Proof.
-  intros sz q0 n sched H r Hr.
-  destruct (J_exec _ sched (J_init sz q0 n H)) as [J1 _].
+  intros sz q0 n sched H Hok r Hr.
+  destruct (J_exec _ sched Hok (J_init sz q0 n H)) as [J1 _].
   rewrite Forall_forall in J1. exact (J1 r Hr).
 Qed.
 
@@ -43,15 +47,52 @@ Qed.
    ends with a refresh to generation g = the discriminant reached), every later hand-out is of
    a generation at least the one reached — nothing older is ever served again. *)
 Theorem C18_never_superseded : forall sz q0 n before later,
-  fresh0 q0 ->
+  fresh0 q0 -> Forall ev_ok before -> Forall ev_ok later ->
   let s1 := exec (init sz q0 n) before in
   forall s' r tag, In (s', OHandout r tag) (trace s1 later) -> disc (pl s1) <= built_for r.
 Proof.
-  intros sz q0 n before later H s1 s' r tag Hin.
-  assert (J1 : J s1) by (apply J_exec, J_init, H).
-  destruct (J_trace _ later J1 _ Hin) as [_ [Hb _]]. simpl in Hb.
-  pose proof (disc_trace s1 later _ Hin) as Hd. simpl in Hd. lia.
+  intros sz q0 n before later H Hok1 Hok2 s1 s' r tag Hin.
+  assert (J1 : J s1) by (apply J_exec; [exact Hok1|apply J_init, H]).
+  destruct (J_trace _ later Hok2 J1 _ Hin) as [_ [Hb _]]. simpl in Hb.
+  pose proof (disc_trace s1 later Hok2 _ Hin) as Hd. simpl in Hd. lia.
 Qed.
+
+(* The refresh is atomic with respect to every other operation, give-backs in particular.  The
+   states other threads can observe are exactly the states between two events.  From one to the
+   next, (i) the discriminant moves only together with a complete drain of the queue, in the same
+   step; (ii) while the discriminant stays, nothing leaves the queue except its head, handed out
+   to the stepped thread (clear(), the legacy entry point, excepted).  Hence no thread ever
+   observes a queue that is empty or partially drained under the old generation because a
+   refresh is in progress: a give-back finds either the old generation with its queue intact or
+   the new generation. *)
+Theorem C18_refresh_atomic : forall s e,
+  let s' := fst (gstep s e) in
+  (ev_ok e -> disc (pl s') <> disc (pl s) -> disc (pl s') = disc (pl s) + 1 /\ queue (pl s') = []) /\
+  (is_clear e = false -> disc (pl s') = disc (pl s) ->
+     queue (pl s') = queue (pl s) \/ queue (pl s') = map reset_res (queue (pl s)) \/
+     (exists r, queue (pl s) = r :: queue (pl s') /\ snd (gstep s e) = OHandout r (disc (pl s))) \/
+     (exists r, queue (pl s') = queue (pl s) ++ [r])).
+Proof. exact refresh_atomic. Qed.
+
+(* The callbacks of a refresh: Drop of every drained resource, in queue order, under both the
+   queue lock and the discriminant lock (no other thread can run a pool operation there); then
+   the refresher stops, holding no lock, in the reset of its own first new resource. *)
+Theorem C18_refresh_callbacks : forall s t ch w,
+  nth_error (ths s) t = Some Idle ->
+  gstep_cbs s (Step t CiRefresh ch w) =
+    map (mkcb CbDrop true true) (queue (pl s)) ++
+    (if size (pl s) =? 0 then []
+     else [mkcb CbReset false false {| rid := fresh_id s; built_for := disc (pl s) + 1; dirty := false |}]).
+Proof. exact refresh_cbs. Qed.
+
+(* Every callback of every step: either it runs under the queue lock, on a queued resource; or it
+   runs with no lock held on the stepped thread's own (not queued) resource, and the thread's step
+   ends there — so that the interleavings at callbacks are interleavings of the model. *)
+Theorem C18_callbacks : forall p f s ci ch c,
+  In c (step_cbs p f s ci ch) ->
+  (cb_qlock c = true /\ exists r, In r (queue p) /\ cb_rid c = rid r) \/
+  (cb_qlock c = false /\ cb_dlock c = false /\ pc_cb (pc_of (step p f s ci ch)) = [c]).
+Proof. exact step_cbs_classify. Qed.
 
 (* Every way of returning a resource ends in this one critical section: a stale tag never
    re-admits, a current tag with room appends exactly the returned resource, a full pool discards. *)
@@ -103,10 +144,24 @@ Proof. exact woken_takes. Qed.
    the refill, and a stale give-back that is discarded *)
 Example C18_ex :
   let sched := [Step 0 CiAcquire ChNone 0; Step 1 CiRefresh ChNone 0; Step 2 CiAcquire ChNone 0;
-                Step 1 CiNone ChNone 2; Step 2 CiNone ChNone 0; Step 0 CiNone ChGiveItem 0;
+                Step 1 CiNone ChNone 0; Step 1 CiNone ChNone 2; Step 2 CiNone ChNone 0;
+                Step 0 CiNone ChGiveItem 0; Step 0 CiNone ChNone 0; Step 0 CiNone ChNone 0;
                 Step 0 CiNone ChNone 0] in
+  Forall ev_ok sched /\
   map snd (trace (init 1 (initial_queue 1 1) 3) sched) =
-    [OHandout {| rid := 1; built_for := 0; dirty := false |} 0; ONone; ONone; ONone;
-     OHandout {| rid := 100; built_for := 1; dirty := false |} 1; ONone; ONone]
-  /\ queue (pl (exec (init 1 (initial_queue 1 1) 3) sched)) = [].
-Proof. vm_compute. split; reflexivity. Qed.
+    [OHandout {| rid := 1; built_for := 0; dirty := false |} 0; ONone; ONone; ONone; ONone;
+     OHandout {| rid := 100; built_for := 1; dirty := false |} 1; ONone; ONone; ONone; ONone]
+  /\ queue (pl (exec (init 1 (initial_queue 1 1) 3) sched)) = []
+  /\ trace_cbs (init 1 (initial_queue 1 1) 3) sched =
+     [[]; [{| cb_kind := CbReset; cb_rid := 100; cb_qlock := false; cb_dlock := false |}]; []; []; []; [];
+      [{| cb_kind := CbReset; cb_rid := 1; cb_qlock := false; cb_dlock := false |}]; [];
+      [{| cb_kind := CbDrop; cb_rid := 1; cb_qlock := false; cb_dlock := false |}]; []].
+Proof. vm_compute. repeat split; try reflexivity. repeat constructor. Qed.
+
+(* a refresh of a non-empty pool: the drained resources are dropped under both locks *)
+Example C18_ex_refresh_cbs :
+  gstep_cbs (init 2 (initial_queue 2 1) 2) (Step 0 CiRefresh ChNone 0) =
+    [{| cb_kind := CbDrop; cb_rid := 1; cb_qlock := true; cb_dlock := true |};
+     {| cb_kind := CbDrop; cb_rid := 2; cb_qlock := true; cb_dlock := true |};
+     {| cb_kind := CbReset; cb_rid := 100; cb_qlock := false; cb_dlock := false |}].
+Proof. vm_compute. reflexivity. Qed.
